@@ -201,13 +201,13 @@ pub fn tree_calls(s: &Subject, others: &[Subject]) -> Vec<(String, String, &'sta
         if fine { if let Some(f2) = followup(&c) { push(&format!("{}; then {}", $name, f2), $arg, Err(String::new())); } } }}; }
     macro_rules! i { ($name:expr, $arg:expr, $f:expr) => {{ let mut c = t.clone(); let rr = guarded(AssertUnwindSafe(|| { let _ = $f(&mut c); "ok" })); push($name, $arg, rr); }}; }
     // a read-only query asked TWICE of the same object (no reset in between) answers the same both times, whatever the object
-    // is — in particular a refusal stays a refusal (an index or a cache filled before its input was validated would turn the
+    // is (float sums are compared to six digits: the summation order over a hash map may differ between two calls) — in particular a refusal stays a refusal (an index or a cache filled before its input was validated would turn the
     // second call into an answer)
     macro_rules! tw { ($name:expr, $arg:expr, $f:expr) => {{ let mut c = t.clone(); let rr = guarded(AssertUnwindSafe(|| { let a = format!("{:?}", $f(&mut c)); let b = format!("{:?}", $f(&mut c)); if a == b { "ok" } else { "unstable" } })); push(&format!("{} twice", $name), $arg, rr); }}; }
     tw!("get_partitions", String::new(), |c: &mut Tree| c.get_partitions().map(|p| p.len()).map_err(|_| ()));
     tw!("robinson_foulds(copy)", String::new(), |c: &mut Tree| { let o = t.clone(); c.robinson_foulds(&o).map_err(|_| ()) });
-    tw!("weighted_robinson_foulds(copy)", String::new(), |c: &mut Tree| { let o = t.clone(); c.weighted_robinson_foulds(&o).map(|v| v.to_bits()).map_err(|_| ()) });
-    tw!("compare_topologies(copy)", String::new(), |c: &mut Tree| { let o = t.clone(); c.compare_topologies(&o).map(|r| (r.rf.to_bits(), r.norm_rf.to_bits(), r.weighted_rf.to_bits())).map_err(|_| ()) });
+    tw!("weighted_robinson_foulds(copy)", String::new(), |c: &mut Tree| { let o = t.clone(); c.weighted_robinson_foulds(&o).map(|v| format!("{v:.6e}")).map_err(|_| ()) });
+    tw!("compare_topologies(copy)", String::new(), |c: &mut Tree| { let o = t.clone(); c.compare_topologies(&o).map(|r| (r.rf.to_bits(), format!("{:.6e}", r.norm_rf), format!("{:.6e}", r.weighted_rf))).map_err(|_| ()) });
     tw!("compare_branch_lengths(copy)", String::new(), |c: &mut Tree| { let o = t.clone(); c.compare_branch_lengths(&o, true).map(|_| ()).map_err(|_| ()) });
     tw!("distance_matrix_recursive", String::new(), |c: &mut Tree| c.distance_matrix_recursive().map(|m| m.size).map_err(|_| ()));
     tw!("distance_matrix", String::new(), |c: &mut Tree| c.distance_matrix().map(|m| m.size).map_err(|_| ()));
